@@ -14,6 +14,7 @@ package trzsz
 // The drivers record; TLC judges.
 
 import (
+	"sync/atomic"
 	"bytes"
 	"compress/zlib"
 	"encoding/base64"
@@ -971,6 +972,7 @@ type c04WireCfg struct {
 	Piece    int    `json:"piece"`
 	Sizes    []int  `json:"sizes"`
 	Comp     string `json:"comp"`
+	Slow     bool   `json:"slow"` // every third block looks 2.5 s slow to the sender: its buffer size shrinks while larger blocks are queued
 }
 
 func c04CfgAnn(serverWrites [][]byte) ([][]int, error) {
@@ -1026,7 +1028,23 @@ func c04OneUpload(d *vCtx, tr *vTrace, cfg *c04WireCfg, rng *rand.Rand) (infra e
 	var contents [][]byte
 	for i, n := range cfg.Sizes {
 		data := g.payload(n)
-		if i == 0 && n >= 256 {
+		if cfg.Slow {
+			// stretches without any protected byte (only a block that did not grow by escaping lets the sender
+			// shrink its buffer size) alternate with stretches full of them (queued blocks that are split again)
+			for p, clean := 0, true; p < n; clean = !clean {
+				k := 2000 + rng.Intn(12000)
+				if p+k > n {
+					k = n - p
+				}
+				if clean {
+					for j := p; j < p+k; j++ {
+						data[j] = byte('a' + rng.Intn(26))
+					}
+				}
+				p += k
+			}
+		}
+		if i == 0 && n >= 256 && !cfg.Slow {
 			copy(data[rng.Intn(n-255):], c04All256(rng))
 		}
 		p := filepath.Join(srcDir, fmt.Sprintf("f%d.bin", i))
@@ -1041,6 +1059,34 @@ func c04OneUpload(d *vCtx, tr *vTrace, cfg *c04WireCfg, rng *rand.Rand) (infra e
 	cli := newTransfer(cliW, nil, false, nil)
 	srv := newTransfer(srvW, nil, false, nil)
 	cliW.peer, srvW.peer = srv, cli
+	if cfg.Slow {
+		// steer the sender's adaptive buffer size with the package's own injectable clock: the begin time of two
+		// blocks in five lies 2.5 s in the past, so its acknowledgement looks slow and the size shrinks (pipelineRecvAck)
+		old := timeNowFunc
+		var calls atomic.Int64
+		timeNowFunc = func() time.Time {
+			if calls.Add(1)%5 < 2 {
+				return time.Now().Add(-2500 * time.Millisecond)
+			}
+			return time.Now()
+		}
+		defer func() { timeNowFunc = old }()
+		// evidence only: how many queued blocks the send stage had to split again after a shrink
+		var gotLen atomic.Int64
+		verifHook = func(point string, args ...int) {
+			switch point {
+			case "pipe.snd.got":
+				gotLen.Store(int64(args[0]))
+			case "pipe.snd.ack":
+				if g := gotLen.Swap(0); g > int64(args[0]) {
+					d.add("resplit_blocks", 1)
+				}
+			}
+		}
+		defer func() { verifHook = nil }()
+		d.add("slow_runs", 1)
+		defer func() { d.set("slow_last_bufsize", int(cli.bufferSize.Load())) }()
+	}
 
 	var localNames []string
 	srvDone := make(chan error, 1)
@@ -1213,6 +1259,11 @@ func c04WirePlan(run int, rng *rand.Rand) *c04WireCfg {
 			n = 256 + rng.Intn(64)
 		}
 		cfg.Sizes = append(cfg.Sizes, n)
+	}
+	if cfg.Proto >= 2 && (run%8 == 5 || run%8 == 2) {
+		cfg.Slow = true
+		cfg.Bufsize = []int64{4096, 20000}[rng.Intn(2)]
+		cfg.Sizes = []int{60000 + rng.Intn(60000)} // a dozen blocks and more: the encoder runs ahead of the acknowledgements
 	}
 	switch {
 	case cfg.Compress == kCompressNo:
